@@ -60,6 +60,11 @@ type gstate struct {
 }
 
 func (s *gstate) violate(v verdict) {
+	// stage parameter gap=probe turns the silent-gap finding into a probe (see stage.json)
+	if v.oracle == "gap" && strings.Contains(v.sig, "rotated file") && s.opt.Params["gap"] == "probe" {
+		s.res.Probe("rotated-file-gap-undetected")
+		return
+	}
 	s.failed = true
 	if v.oracle == "harness" {
 		s.res.Infra = v.detail
@@ -577,7 +582,7 @@ func (s *gstate) checkAll(w *consensus.BaseWAL, d *damage) bool {
 	s.step("readall %s -> %d msgs, end kind %d, after %d", what, len(out.msgs), errKind(out.err), len(out.after))
 	if v.bad() {
 		s.violate(v)
-		return false
+		return !s.failed
 	}
 	if d != nil && !d.strict && len(out.msgs) > d.intact {
 		s.res.Probe("truncated-trailing-zero-bytes-record-still-returned")
@@ -695,5 +700,5 @@ func (s *gstate) checkSearch(w *consensus.BaseWAL, q int64, ign bool, d *damage)
 	}
 	last.detail = fmt.Sprintf("search for height %d (ignore=%v): %s", q, ign, last.detail)
 	s.violate(last)
-	return false, false
+	return !s.failed, true
 }
